@@ -339,6 +339,13 @@ type rxCvssOut struct {
 
 var rxCvssFresh = []string{"Zq7", "rx~"}
 
+// rxCvssCopies: how often the probed metric is repeated in the vector handed to
+// fromCVSSn (the functions want 8 resp. 6 pieces).  The probe calls the function
+// with n and with n+1 copies: a store belongs to the metric iff it happens once
+// more in the second call; a store made once per call (e.g. a fix-up after the
+// loop) says nothing about the metric and is left out.
+const rxCvssCopies = 12
+
 func rxFmtFloat(f float64) string { return strconv.FormatFloat(f, 'g', -1, 64) }
 
 // rxCvssScorePoints: the scores QualitativeScore is asked about: every number
@@ -454,7 +461,7 @@ func rxCvssEval(repo string) (*rxCvssOut, []float64, error) {
 				delete(values, s)
 			}
 		}
-		osvIn[ver] = map[string]any{"names": names.sorted(), "values": values.sorted(), "copies": 12}
+		osvIn[ver] = map[string]any{"names": names.sorted(), "values": values.sorted(), "copies": rxCvssCopies}
 	}
 	var out rxCvssOut
 	if err := rxProbe(repo, "cvss", map[string]any{"qual": qual, "mvMax": 4, "osv": osvIn}, &out); err != nil {
